@@ -137,3 +137,24 @@ def value_sinks(fn, local, seen=None, depth=0):
                 if st["place"]["local"] == local and not fn.is_cleanup(b):
                     out.append(("drop", "", b, len(fn.blocks[b]["stmts"])))
     return out
+
+
+def field_stores(fn, field):
+    """[(block, index, value)] of every store to the memory field `field` in fn: plain assignments through a
+    pointer, `mem::replace(&mut _.field, v)` (stores v) and `mem::take(&mut _.field)` (stores the default, 0)"""
+    out = []
+    for b, i, st, is_term in fn.positions(False):
+        if not is_term:
+            if st["k"] == "assign" and mir.place_has_deref(st["place"]) and mir.mem_var_of(st["place"]) == ("M", field):
+                out.append((b, i, mir.strip_casts(fn.rvalue_expr(st["rv"], b, i))))
+            continue
+        if st["k"] != "call":
+            continue
+        p = mir.callee_path(st)
+        if p not in ("core::mem::replace", "core::mem::take"):
+            continue
+        args = fn.call_args(b)
+        a0 = args[0] if args else None
+        if isinstance(a0, tuple) and a0[0] == "ref" and isinstance(a0[1], tuple) and a0[1][0] == "place" and tuple(a0[1][2])[-1:] == (field,):
+            out.append((b, i, mir.strip_casts(fn.deep_simplify(args[1])) if p.endswith("replace") else ("int", 0)))
+    return out
